@@ -75,7 +75,7 @@ MBOne(g, e) ==
   LET u == Min(e)
       v == Max(e)
   IN IF g.ty[u] # g.ty[v] THEN [g |-> g, mod |-> FALSE]
-     ELSE IF g.ty[u] \notin {"Z", "X"} THEN [g |-> DelE(g, u, v), mod |-> FALSE]
+     ELSE IF g.ty[u] \notin {"Z", "X"} THEN [g |-> g, mod |-> FALSE]        \* boundary-boundary wire: kept (fixed by 7320bff)
      ELSE LET n == Fresh(g)
           IN [g |-> SetET(SetET(AddV(DelE(g, u, v), n, OtherTy(g.ty[u]), 0), u, n, "N"), n, v, "N"), mod |-> TRUE]
 RECURSIVE MBPass(_, _, _)
